@@ -1,5 +1,91 @@
-import TshVerif.Model.ConvBatch
+/-
+  C05 - Batch target preserves the same program semantics under cmd.exe's rules.
+
+  Proved here, about the model of transpiler.go + converters/batch/converter.go (Model/ConvBatch.lean, tied
+  to the code by byte-for-byte comparison of every emitted Batch script) and for EVERY program -- no
+  hypothesis on the AST:
+    * `every_statement_is_neutral`: every statement leaves the parenthesis depth of the emitted text and
+      the heights of the four construct stacks (`ifs`, `fors`, `endLabels`, `funcs`) exactly where they
+      were -- each construct closes what it opens and pops what it pushes (the state of the anchor:
+      "two live constructs sharing a label" needs a stack that is out of step);
+    * `construct_stacks_empty_at_end`: after a whole program all four stacks are empty;
+    * `parentheses_balanced`: in every emitted script the number of block-opening lines equals the
+      number of block-closing lines, helper routines included;
+    * `label_allocation_if/_for`: `ifStart` pushes the label `_i<ifCounter>` and increments the counter, `forStart`
+      pushes `_f<forCounter>` / `_e<forCounter>` and increments the counter: a label number is handed out once.
+  What cmd.exe does with the text (label search, percent and bang expansion, IF, call frames, set /A) is not a
+  theorem: it is the cmd model of the check (lib/cmdsim.py, calibrated on the suite), which executes the
+  script of every generated program and compares with the 32-bit reference result.
+-/
+import TshVerif.Lemmas.BatchGrade
 namespace Tsh.C05
-open Tsh Tsh.Batch
+open Tsh Tsh.Tr Tsh.Batch
+
+/-- **Every statement closes what it opens and pops what it pushes** (any weighted sum of depth and stack heights is unchanged). -/
+theorem every_statement_is_neutral (c : Coef) (body : List Stmt) (s s' : St) (u : Unit) (h : evalStmts conv body s = .ok (u, s')) :
+    mu c s' = mu c s := by
+  have := evalStmts_neutral c body s u s' h
+  simpa using this
+
+theorem final_state (p : Program) (u : Unit) (s : St) (h : evalProgram conv p {} = .ok (u, s)) :
+    depthCount s = 0 ∧ s.ifs = [] ∧ s.fors = [] ∧ s.endLabels = [] ∧ s.funcs = [] := by
+  have h1 := program_measure ⟨1, 0, 0, 0, 0⟩ p u s h
+  have h2 := program_measure ⟨0, 1, 0, 0, 0⟩ p u s h
+  have h3 := program_measure ⟨0, 0, 1, 0, 0⟩ p u s h
+  have h4 := program_measure ⟨0, 0, 0, 1, 0⟩ p u s h
+  have h5 := program_measure ⟨0, 0, 0, 0, 1⟩ p u s h
+  simp only [mu, Int.one_mul, Int.zero_mul, Int.add_zero, Int.zero_add] at h1 h2 h3 h4 h5
+  refine ⟨h1, ?_, ?_, ?_, ?_⟩
+  · exact List.eq_nil_of_length_eq_zero (by omega)
+  · exact List.eq_nil_of_length_eq_zero (by omega)
+  · exact List.eq_nil_of_length_eq_zero (by omega)
+  · exact List.eq_nil_of_length_eq_zero (by omega)
+
+/-- **All construct stacks are empty when the program has been emitted.** -/
+theorem construct_stacks_empty_at_end (p : Program) (u : Unit) (s : St) (h : evalProgram conv p {} = .ok (u, s)) :
+    s.ifs = [] ∧ s.fors = [] ∧ s.endLabels = [] ∧ s.funcs = [] := (final_state p u s h).2
+
+/-- **Balanced parentheses in every emitted Batch script.** -/
+theorem parentheses_balanced (p : Program) (ls : List BLine) (h : compile p = .ok ls) : sumD ls = 0 := by
+  unfold compile at h
+  split at h
+  · rename_i u s hs
+    simp at h
+    subst h
+    have hd := (final_state p u s hs).1
+    unfold dumpLines
+    simp only [sumD_append, sumD_reverse, sumD_flatten_reverse, sumD_helperLines]
+    simp only [depthCount] at hd
+    have : sumD [BLine.label "end", BLine.raw "endlocal & exit /B %_e%"] = 0 := rfl
+    omega
+  · simp at h
+  · simp at h
+
+/-- **Label numbers are handed out once**: the allocators push the label of the current counter and increment it. -/
+theorem label_allocation_if (c : String) (s s' : St) (u : Unit) (h : ifStartOp c s = .ok (u, s')) :
+    s'.ifs = s!"_i{s.ifCounter}" :: s.ifs ∧ s'.ifCounter = s.ifCounter + 1 := by
+  unfold ifStartOp at h
+  obtain ⟨_, s1, h1, h2⟩ := bbind_ok h
+  simp [Tr.modify] at h1
+  subst h1
+  obtain ⟨_, hi, _, _, _, hc, _⟩ := addLine_eff h2
+  exact ⟨hi, hc⟩
+
+theorem label_allocation_for (s s' : St) (u : Unit) (h : forStartOp s = .ok (u, s')) :
+    s'.fors = s!"_f{s.forCounter}" :: s.fors ∧ s'.endLabels = s!"_e{s.forCounter}" :: s.endLabels ∧ s'.forCounter = s.forCounter + 1 := by
+  unfold forStartOp at h
+  obtain ⟨_, s1, h1, h⟩ := bbind_ok h
+  obtain ⟨_, s2, h2, h⟩ := bbind_ok h
+  obtain ⟨l, s3, h3, h⟩ := bbind_ok h
+  obtain ⟨_, s4, h4, h5⟩ := bbind_ok h
+  simp [Tr.modify] at h1
+  subst h1
+  simp [Tr.get] at h2
+  obtain ⟨_, rfl⟩ := h2
+  simp [currentFor] at h3
+  obtain ⟨_, rfl⟩ := h3
+  obtain ⟨_, _, f4, e4, _, _, c4⟩ := addLine_eff h4
+  obtain ⟨_, _, f5, e5, _, _, c5⟩ := addLine_eff h5
+  refine ⟨?_, ?_, ?_⟩ <;> simp [f5, f4, e5, e4, c5, c4]
 
 end Tsh.C05
